@@ -40,7 +40,22 @@ type postAnswer struct {
 	status int
 	err    error
 	slow   bool
+	// bodyErr: the status line and headers arrive, reading the body then fails
+	// (connection reset in the middle of the response)
+	bodyErr bool
 }
+
+// brokenBody delivers a few bytes and then a transport error.
+type brokenBody struct{ n int }
+
+func (b *brokenBody) Read(p []byte) (int, error) {
+	if b.n == 0 {
+		b.n++
+		return copy(p, "oops"), nil
+	}
+	return 0, errTransport
+}
+func (b *brokenBody) Close() error { return nil }
 
 type scriptedRT struct {
 	mu      sync.Mutex
@@ -76,6 +91,9 @@ func (rt *scriptedRT) RoundTrip(req *http.Request) (*http.Response, error) {
 	rt.mu.Unlock()
 	if a.err != nil {
 		return nil, a.err
+	}
+	if a.bodyErr {
+		return &http.Response{StatusCode: a.status, Status: fmt.Sprint(a.status), Body: &brokenBody{}, ContentLength: 64, Header: http.Header{}, Request: req}, nil
 	}
 	return &http.Response{StatusCode: a.status, Status: fmt.Sprint(a.status), Body: io.NopCloser(bytes.NewReader([]byte("ok"))), Header: http.Header{}, Request: req}, nil
 }
@@ -278,6 +296,11 @@ func runC19(t *testing.T, tier string) int {
 			if tier == "thorough" || code%10 == 0 || c19Success[code] || code == 429 || code == 503 {
 				answers = append(answers, ans{fmt.Sprintf("%d slow", code), postAnswer{status: code, slow: true}})
 			}
+		}
+		// a failing status whose body cannot be read is still a failing status
+		for _, code := range []int{300, 400, 404, 429, 500, 503} {
+			answers = append(answers, ans{fmt.Sprintf("%d fast, body breaks off", code), postAnswer{status: code, bodyErr: true}},
+				ans{fmt.Sprintf("%d slow, body breaks off", code), postAnswer{status: code, bodyErr: true, slow: true}})
 		}
 		answers = append(answers, ans{"transport error fast", postAnswer{err: errTransport}}, ans{"transport error slow", postAnswer{err: errTransport, slow: true}}, ans{"context deadline", postAnswer{err: context.DeadlineExceeded}})
 		for _, an := range answers {
